@@ -279,7 +279,7 @@ def c2m_stage(chk, model, quick):
     items = []
     for k in ok:
         vals, rets = G.gen_values(rng, protos[k])
-        items.append((k, protos[k], G.fix_values(protos[k], vals, rng), rets))
+        items.append((k, protos[k], G.zero_padding(protos[k], G.fix_values(protos[k], vals, rng)), rets))
     pick = {k: rng.choice(ENGINES_QUICK[1:]) for k in ok}
     def engines_of(k, d):
         if not quick:
